@@ -9,6 +9,7 @@ import (
 	"context"
 	"fmt"
 	"math/rand"
+	"runtime"
 	"sort"
 	"sync"
 	"time"
@@ -230,3 +231,5 @@ func policyByIndex(i int, rng *rand.Rand, nodes []uint16) (string, simnet.Policy
 func hasSuffixPayload(data, payload []byte) bool {
 	return bytes.HasSuffix(data, payload) && len(data)-len(payload) <= 4
 }
+
+func runtimeGosched() { runtime.Gosched() }
